@@ -82,6 +82,30 @@ func suiteC09(r *Run) {
 		}
 		strs = append(strs, b.String())
 	}
+	// a header that is present but carries no usable value: empty value, no values at all, an empty first value
+	// (http.Header.Get looks at the first value of the canonical key only)
+	for _, hv := range []http.Header{{"Grpc-Timeout": {""}}, {"Grpc-Timeout": {}}, {"Grpc-Timeout": {"", "5S"}}, {"Grpc-Timeout": {" "}}} {
+		var crashed string
+		hasDL := false
+		func() {
+			defer recoverTo(&crashed)
+			ctx, cancel, err := httpgrpc.VerifContextFromHeaders(context.Background(), hv)
+			defer cancel()
+			if err != nil {
+				crashed = "error:" + err.Error()
+				return
+			}
+			_, hasDL = ctx.Deadline()
+		}()
+		c := map[string]interface{}{"op": "parse-present-but-empty", "header_values": fmt.Sprintf("%q", hv["Grpc-Timeout"])}
+		r.Eval(fmt.Sprintf("parse-empty %q", hv["Grpc-Timeout"]), true)
+		r.Count("server:present-but-empty")
+		if crashed != "" {
+			r.Violate("http-server/timeout/crash", "header strings not of that form never crash the server", sprintf("GRPC-Timeout values %q: %s", hv["Grpc-Timeout"], crashed), c, crashed)
+		} else if hasDL {
+			r.Violate("http-server/timeout/deadline-from-nothing", "a missing or malformed header yields no deadline", sprintf("GRPC-Timeout values %q gave the handler a deadline", hv["Grpc-Timeout"]), c, "deadline")
+		}
+	}
 	seen := map[string]bool{}
 	for _, s := range strs {
 		if seen[s] {
